@@ -41,12 +41,15 @@ structure PartialSig where
 deriving Repr, DecidableEq
 
 /-- `(*DSS).PartialSig()`: `V = hash·alpha + beta`, `I = index`; the first call also stores the
-    node's own partial. -/
-def partialSig (q : Nat) (d : DSS) : DSS × PartialSig :=
+    node's own partial. `fixOwn = false` is the code as it stands: the own partial is appended even if a
+    partial of the node's own index was already stored by `ProcessPartialSig`; `fixOwn = true` is the code
+    with fixes/C12-own-partial-counted-twice.patch (append only if the index is not stored yet). -/
+def partialSig (fixOwn : Bool) (q : Nat) (d : DSS) : DSS × PartialSig :=
   let right := mul q d.h d.alpha
   let ps : PartialSig := { I := d.index, V := add q right d.beta, sid := d.sid }
   let d' := if !d.signed then
-      { d with seen := d.seen ++ [d.index], partials := d.partials ++ [⟨ps.I, some ps.V⟩], signed := true }
+      (if fixOwn && decide (d.index ∈ d.seen) then { d with signed := true }
+       else { d with seen := d.seen ++ [d.index], partials := d.partials ++ [⟨ps.I, some ps.V⟩], signed := true })
     else d
   (d', ps)
 
@@ -91,10 +94,10 @@ inductive Op where
   | recv (ps : PartialSig) (authOK : Bool)
 deriving Repr
 
-def step (q : Nat) (d : DSS) : Op → DSS
-  | .sign => (partialSig q d).1
+def step (fixOwn : Bool) (q : Nat) (d : DSS) : Op → DSS
+  | .sign => (partialSig fixOwn q d).1
   | .recv ps a => (processPartialSig q d ps a).1
 
-def run (q : Nat) (d : DSS) (ops : List Op) : DSS := ops.foldl (step q) d
+def run (fixOwn : Bool) (q : Nat) (d : DSS) (ops : List Op) : DSS := ops.foldl (step fixOwn q) d
 
 end Kyber.Dss
